@@ -254,7 +254,7 @@ fn random_op(rng: &mut Rng) -> Op {
         4 => Op::Flags(rng.below(65536) as u16),
         5 | 6 | 7 => Op::Flag(FLAG_NAMES[rng.below(10) as usize], rng.chance(1, 2)),
         8 => Op::Pfx(if rng.chance(1, 3) { None } else { Some(*rng.pick(&['!', '$', 'A', '\u{0}', '~', 'é'])) }),
-        9 => Op::Interval(if rng.chance(1, 3) { None } else { Some(*rng.pick(&[0u64, 1, 50, 1000, 65535])) }),
+        9 => Op::Interval(if rng.chance(1, 3) { None } else { Some(*rng.pick(&[0u64, 1, 50, 1000, 65535, 65536, 100000])) }),
         10 => Op::Iname(if rng.chance(1, 3) { None } else { Some(rng.pick(&names).to_string()) }),
         11 => Op::Admin(if rng.chance(1, 3) { None } else { Some(rng.pick(&names).to_string()) }),
         12 => Op::Reqi(rng.byte()),
